@@ -289,14 +289,17 @@ def r14_3(rep: Report, idx: Index) -> None:
                                  f'{ver} branch of EventMessageBox does not encode '
                                  f'({sorted(per_version[ver])})', n)
                 # value semantics: v0 is a delta from the segment start, v1 is absolute
+                from ..core import subst_locals
                 for s in branch:
-                    if isinstance(s, ast.Assign) and isinstance(s.targets[0], ast.Name) \
-                            and s.targets[0].id == 'time_delta':
-                        if norm(s.value) == 'presentation_time - seg_start':
+                    if ver == '0' and isinstance(s, ast.Assign) and isinstance(s.targets[0], ast.Subscript) \
+                            and isinstance(s.targets[0].slice, ast.Constant) \
+                            and s.targets[0].slice.value == 'presentation_time_delta':
+                        val = norm(subst_locals(fn, s.value))
+                        if val == 'presentation_time - seg_start':
                             rep.ok(rid, construct, 'v0 delta = presentation_time - seg_start')
                         else:
                             rep.fail(rid, construct, 'v0 delta = presentation_time - seg_start',
-                                     f'version 0 delta is `{norm(s.value)}`', s)
+                                     f'version 0 delta is `{val}`', s)
     if found == 0:
         raise AnalysisError('create_emsg_boxes: version test not found')
     # common kwargs exist in both branches of the box
@@ -316,19 +319,19 @@ def r14_4_5(rep: Report) -> None:
     fn = need(find_func(cls, 'create_emsg_boxes'), 'create_emsg_boxes')
     construct = f'{rel}::RepeatingEventBase.create_emsg_boxes'
     loops = [n for n in ast.walk(fn) if isinstance(n, ast.While)]
-    if len(loops) != 1:
-        raise AnalysisError('create_emsg_boxes: expected one while loop')
+    if not loops:
+        raise AnalysisError('create_emsg_boxes: no scheduling loop')
     loop = loops[0]
-    steps = [n for n in ast.walk(loop) if isinstance(n, ast.AugAssign)
+    steps = [n for lp in loops for n in ast.walk(lp) if isinstance(n, ast.AugAssign)
              and norm(n.target) == 'presentation_time']
     if not steps:
         raise AnalysisError('create_emsg_boxes: no presentation_time step')
     guarded = False
     for n in fn.body:
-        if isinstance(n, ast.If) and n.lineno < loop.lineno \
-                and re.fullmatch(r'self\.interval (<=|<) (0|1)', norm(n.test)) \
-                and isinstance(n.body[-1], (ast.Return, ast.Raise)):
-            guarded = True
+        if isinstance(n, ast.If) and isinstance(n.body[-1], (ast.Return, ast.Raise)):
+            alts = n.test.values if isinstance(n.test, ast.BoolOp) and isinstance(n.test.op, ast.Or) else [n.test]
+            if any(re.fullmatch(r'self\.interval (<=|<) (0|1)', norm(a_)) for a_ in alts):
+                guarded = True
     for s in steps:
         key = norm(s)
         if norm(s.value) == 'self.interval' and guarded:
@@ -472,44 +475,79 @@ def r14_6(rep: Report) -> None:
     cls = need(find_class(tree, 'RepeatingEventBase'), 'RepeatingEventBase')
     fn = need(find_func(cls, 'create_emsg_boxes'), 'create_emsg_boxes')
     construct = f'{rel}::RepeatingEventBase.create_emsg_boxes'
-    # last definition of seg_end before the loop
-    loop = [n for n in ast.walk(fn) if isinstance(n, ast.While)][0]
-    defs = [n for n in ast.walk(fn) if isinstance(n, ast.Assign) and norm(n.targets[0]) == 'seg_end'
-            and n.lineno < loop.lineno]
-    if not defs:
-        raise AnalysisError('create_emsg_boxes: seg_end is not computed before the loop')
-    last = sorted(defs, key=lambda n: n.lineno)[-1]
+    from ..normalise import clone
+    # statements in program order (line numbers are not an order once helpers are inlined)
+    order: list[ast.stmt] = []
 
-    def floordivs(e: ast.AST, depth: int = 0) -> int:
-        """number of separately floored terms summed in e (through local definitions)"""
+    def flat(stmts):
+        for st in stmts:
+            order.append(st)
+            for field in ('body', 'orelse', 'finalbody'):
+                blk = getattr(st, field, None)
+                if isinstance(blk, list) and blk and isinstance(blk[0], ast.stmt):
+                    flat(blk)
+            for h in getattr(st, 'handlers', []) or []:
+                flat(h.body)
+    flat(fn.body)
+    pos = {id(st): i for i, st in enumerate(order)}
+    loops = [st for st in order if isinstance(st, ast.While)]
+    if not loops:
+        raise AnalysisError('create_emsg_boxes: no scheduling loop')
+    loop_at = pos[id(loops[0])]
+
+    def defs_of(name: str, before: int) -> list[tuple[int, ast.AST]]:
+        out = []
+        for i, st in enumerate(order[:before]):
+            if isinstance(st, ast.Assign) and len(st.targets) == 1:
+                t = st.targets[0]
+                if norm(t) == name:
+                    out.append((i, st.value))
+                elif isinstance(t, ast.Tuple) and isinstance(st.value, ast.Tuple) and len(t.elts) == len(st.value.elts):
+                    for te, ve in zip(t.elts, st.value.elts):
+                        if norm(te) == name:
+                            out.append((i, ve))
+            elif isinstance(st, ast.AnnAssign) and st.value is not None and norm(st.target) == name:
+                out.append((i, st.value))
+        return out
+
+    def resolved(e: ast.AST, before: int, depth: int = 0) -> ast.AST:
+        """e with every local name replaced by its last definition before position `before`"""
+        if depth > 5:
+            return e
+
+        class T(ast.NodeTransformer):
+            def visit_Name(self, node):
+                ds = defs_of(node.id, before)
+                if not ds or not isinstance(node.ctx, ast.Load):
+                    return node
+                i, v = ds[-1]
+                return resolved(clone(v), i, depth + 1)
+        return T().visit(clone(e))
+    ds_end = defs_of('seg_end', loop_at)
+    if not ds_end:
+        raise AnalysisError('create_emsg_boxes: seg_end is not computed before the loop')
+    e_end = resolved(ds_end[-1][1], ds_end[-1][0])
+
+    def floordivs(e: ast.AST) -> int:
         if isinstance(e, ast.BinOp) and isinstance(e.op, ast.FloorDiv):
             return 1
         if isinstance(e, ast.BinOp) and isinstance(e.op, (ast.Add, ast.Sub)):
-            return floordivs(e.left, depth) + floordivs(e.right, depth)
-        if isinstance(e, ast.Name) and depth < 3:
-            ds = [n for n in ast.walk(fn) if isinstance(n, ast.Assign) and norm(n.targets[0]) == e.id
-                  and n.lineno < last.lineno]
-            if ds:
-                return floordivs(sorted(ds, key=lambda n: n.lineno)[-1].value, depth + 1)
+            return floordivs(e.left) + floordivs(e.right)
         return 0
     # the duration added to the segment start is that of the fragment being served
-    first = sorted(defs, key=lambda n: n.lineno)[0]
     dur_term = None
-    if isinstance(first.value, ast.BinOp) and isinstance(first.value.op, ast.Add):
-        for a, b in ((first.value.left, first.value.right), (first.value.right, first.value.left)):
-            if norm(a) == 'seg_start':
-                dur_term = b
+    for n in ast.walk(e_end):
+        if isinstance(n, ast.BinOp) and isinstance(n.op, ast.Add):
+            for a_, b_ in ((n.left, n.right), (n.right, n.left)):
+                if 'base_media_decode_time' in norm(a_) and 'base_media_decode_time' not in norm(b_):
+                    dur_term = b_
+    last_txt = norm(e_end)
     if dur_term is None:
-        rep.note(f'R14.6: first seg_end definition `{norm(first)}` is not seg_start + <duration>; source of the '
+        rep.note(f'R14.6: seg_end = `{last_txt[:80]}` is not <tfdt decode time> + <duration>; source of the '
                  'duration not decided')
         rep.ok(rid, construct, 'window end uses the served fragment', 'form not recognised (not decided)')
     else:
         txt = norm(dur_term)
-        if isinstance(dur_term, ast.Name):
-            ds = [n for n in ast.walk(fn) if isinstance(n, ast.Assign) and norm(n.targets[0]) == dur_term.id
-                  and n.lineno < first.lineno]
-            if ds:
-                txt = norm(sorted(ds, key=lambda n: n.lineno)[-1].value)
         if 'mod_segment' in txt or 'trun' in txt:
             rep.ok(rid, construct, 'window end uses the served fragment', txt)
         else:
@@ -517,17 +555,17 @@ def r14_6(rep: Report) -> None:
                      f'the segment window is [start, start + `{txt}`): that is not the duration of the fragment '
                      'being served (segments[mod_segment].duration or its trun samples) - with a short last '
                      'fragment or variable fragment durations an event is delivered twice or not at all',
-                     first)
-    k = floordivs(last.value)
+                     loops[0])
+    k = floordivs(e_end)
     if k >= 2:
         rep.fail(rid, construct, 'window end converted as one quantity',
-                 f'`{norm(last)}` adds {k} separately floor-divided terms: floor is not additive, so '
+                 f'seg_end = `{last_txt[:100]}` adds {k} separately floor-divided terms: floor is not additive, so '
                  'the windows of consecutive segments do not tile the event timeline (a one-tick hole '
-                 'can swallow an event)', last)
+                 'can swallow an event)', loops[0])
     elif k == 1:
-        rep.ok(rid, construct, 'window end converted as one quantity', norm(last))
+        rep.ok(rid, construct, 'window end converted as one quantity', last_txt[:100])
     else:
-        rep.note(f'R14.6: seg_end = `{norm(last.value)}` - conversion form not recognised; not decided')
+        rep.note(f'R14.6: seg_end = `{last_txt[:80]}` - conversion form not recognised; not decided')
         rep.ok(rid, construct, 'window end converted as one quantity', 'form not recognised (not decided)')
 
 
